@@ -19,6 +19,9 @@ Definition zlen {A} (l : list A) : Z := Z.of_nat (length l).
 (* l[i] *)
 Definition znth {A} (d : A) (l : list A) (i : Z) : A :=
   if (i <? 0)%Z then nth (length l - Z.to_nat (- i)) l d else nth (Z.to_nat i) l d.
+(* l[i] = v  for an index in range (out of range: IndexError, the list is left as it is) *)
+Definition py_list_set {A} (l : list A) (i : Z) (v : A) : list A :=
+  if ((0 <=? i)%Z && (i <? Z.of_nat (length l))%Z)%bool then firstn (Z.to_nat i) l ++ v :: skipn (S (Z.to_nat i)) l else l.
 Definition zrange (n : Z) : list Z := map Z.of_nat (seq 0 (Z.to_nat n)).                       (* range(n) *)
 Definition zenumerate {A} (l : list A) : list (Z * A) := combine (map Z.of_nat (seq 0 (length l))) l.
 Definition list_repeat {A} (l : list A) (k : Z) : list A := concat (repeat l (Z.to_nat k)).   (* l * k *)
